@@ -39,5 +39,21 @@ def run(ctx):
     for r in recs + big:
         if r["status"] == "ok" and r["res"]["threads"][0] != r["res"]["threads"][1]:
             ctx.violation("threads-left", "thread count %s -> %s after p?gssv (P=%d)" % (r["res"]["threads"] + (r["cfg"]["nprocs"],)), S.replay_blob(r))
-    S.coverage(ctx, recs + big, "Includes nprocs=64 oversubscribed runs with schedule perturbation; harness timeout 120 s is the watchdog.")
+    # error returns: a caller workspace too small for the factors, or large enough for them but not for every worker's private arrays --
+    # the routine must still return (info > n), with every thread it created gone; all four precision copies of the allocator
+    errs = []
+    for i, P in enumerate((1, 2, 4, 8)):
+        errs += S.sweep(ctx, 60 if q else 800, 30 if q else 60, precs="dszc", drivers=("gssvx",), seed_offset=420 + i,
+                        force={"nprocs": P, "dominant": True, "lwork": [512, 4096, 20000, 60000, 120000, 250000, 500000, 1000000]})
+    nerr = 0
+    for r in errs:
+        if r["status"] == "ok":
+            n_ = r["cfg"]["n"]
+            nerr += 1 if r["info"] > n_ + 1 else 0
+            if r["res"]["threads"][0] != r["res"]["threads"][1]:
+                ctx.violation("threads-left:error-return", "thread count %s -> %s after p?gssvx with a short caller workspace (P=%d, lwork=%d, info=%d)" % (
+                    r["res"]["threads"] + (r["cfg"]["nprocs"], r["cfg"]["lwork"], r["info"])), S.replay_blob(r))
+    S.judge(ctx, errs, ["wfL", "wfU", "permr", "permc", "lu"], "short-workspace-run", need_info0=False)
+    ctx.coverage["short_workspace_runs"] = {"runs": len(errs), "returned_out_of_memory": nerr}
+    S.coverage(ctx, recs + big + errs, "Includes nprocs=64 oversubscribed runs with schedule perturbation; harness timeout 120 s is the watchdog.")
     ctx.coverage["samples"] = [{"driven_case": "n,panel,relax,workers,etree as generated by vlib/sched.py random_forest", "events_total": st["events"]}] + ctx.coverage.get("samples", [])
